@@ -23,6 +23,10 @@ def gen(tier, rng):
     yield nodegen.c09_script(rng, "replay-3", 3, offs[:6] if thorough else [1, 61], probe_seconds=30)
     if thorough:
         yield nodegen.c09_script(rng, "replay-tap", 3, offs, mode="switch", dev="tap", probe_seconds=60)
+    for (w, at) in ([(0, 2), (0, 62), (1, 62), (2, 62), (0, 125)] if thorough else [(0, 62), (1, 62)]):
+        yield nodegen.stale_attempt_script(rng, "stale-attempt-w%d-t%d" % (w, at), w, at)
+    if thorough:
+        yield nodegen.stale_attempt_script(rng, "stale-attempt-tap", 0, 62, mode="switch", dev="tap")
     yield nodegen.healing_script(rng, "heal-asym-12", 2, pt=60, chaos=100, asym=(1, 2))
     for i in range(20 if thorough else 3):
         yield nodegen.attack_script(rng, "attack-%d" % i, rng.choice([2, 3]), 14, long_gap=rng.choice([30, 61, 121]))
